@@ -22,6 +22,8 @@ typedef int      vint;
 typedef size_t   vsz;
 
 #ifndef VERIF_REPLAY
+#include "zstd_verif_hooks.h"
+struct zstd_verif_ghost_s zstd_verif_ghost;     /* the one definition (every unit includes verif.h exactly once) */
 
 vu8  nondet_vu8(void);
 vu16 nondet_vu16(void);
